@@ -91,6 +91,19 @@ theorem C05_server_response_choice (direct : Bool) (acc snd : List Call) (req : 
       (serve (configure direct acc) (configure direct snd) req h) = true :=
   serve_choice _ _ _ (configure_agree direct snd) req h hmd
 
+/-- Without the guard the statement is false of the code: `grpc-encoding` is not a reserved
+metadata name and `map_response` inserts its own value only when an encoding was chosen, so a
+handler's own `grpc-encoding: gzip` reaches the wire on a server configured to send nothing
+(known finding C05-F1; the witness is in the harness corpus). -/
+theorem C05_server_choice_fails_with_forged_metadata :
+    ¬ (∀ (direct : Bool) (acc snd : List Call) (req : SrvReq) (h : Handler),
+        srvChoice (enabledAfter snd) req
+          (serve (configure direct acc) (configure direct snd) req h) = true) := by
+  intro h
+  have := h true [] [] ⟨.unary, [], [gzipName], [⟨0, .raw⟩]⟩ (.reply 1 false [gzipName])
+  revert this
+  decide
+
 /-- "announces it in grpc-encoding exactly when one is chosen": a response that carries
 messages announces precisely the chosen encoding (nothing if none was chosen). -/
 theorem C05_server_announces_iff_chosen (direct : Bool) (acc snd : List Call) (req : SrvReq)
@@ -258,6 +271,18 @@ theorem C05_client_sends_configured (send : List Enc) (acc : List Call) (shape :
     cliSend (sendOf send)
       (call { send := sendOf send, accept := configure true acc } shape [] umdAcc k resp) = true :=
   call_send { send := sendOf send, accept := configure true acc } shape umdAcc k resp
+
+/-- Without the guards the two client statements are false of the code: the caller's own
+`grpc-encoding` / `grpc-accept-encoding` metadata pass through `prepare_request` when the
+corresponding setting was never configured (known findings C05-F2, C05-F3). -/
+theorem C05_client_headers_fail_with_forged_metadata :
+    ¬ (∀ (umdEnc umdAcc : List Bytes) (resp : CliResp),
+        cliSend none (call { send := none, accept := configure true [] } .unary umdEnc umdAcc 1 resp) = true ∧
+        cliAdvertise [] (call { send := none, accept := configure true [] } .unary umdEnc umdAcc 1 resp) = true) := by
+  intro h
+  have := h [gzipName] [gzipName] ⟨[], none, [⟨0, .raw⟩], some 0⟩
+  revert this
+  decide
 
 /-- A client advertises exactly the encodings it accepts: no header if it accepts none,
 otherwise one value listing precisely them (plus `identity`).  (Guard: the caller's own metadata
